@@ -277,6 +277,25 @@ fn run_sequence(burst: u32, period_ms: u64, block: bool, seq: &[Op], stall: Opti
             return Err(("block-mode-stuck".into(), format!("{ctx}: {} of {issued} requests completed within 5 s of the end of the sequence", outcomes.len())));
         }
     }
+    // quotas are per peer also while waiting (Block): a peer with a short queue is not held up
+    // behind another peer's long one. Judged by ORDER only (robust against timing noise): with
+    // all requests issued at once, peer q's last admission is due at (n_q - burst) periods, peer
+    // p's at (n_p - burst); if q's queue is shorter by three or more, q must finish first.
+    if block && seq.iter().all(|o| matches!(o, Op::Spawn(_))) {
+        let count = |p: u8| seq.iter().filter(|o| **o == Op::Spawn(p)).count();
+        let last_admit = |p: u8| adm.iter().filter(|a| a.0 == p).map(|a| a.2).max();
+        for p in 0..3u8 {
+            for q in 0..3u8 {
+                if count(q) >= 1 && count(q) + 3 <= count(p) && count(q) > burst as usize {
+                    if let (Some(lp), Some(lq)) = (last_admit(p), last_admit(q)) {
+                        if lq > lp {
+                            return Err(("peer-held-up-by-another-peers-queue".into(), format!("{ctx}: peer {q} (queue of {}) had its last request admitted {} ms after the last one of peer {p} (queue of {}): its wait depended on the other peer's backlog", count(q), lq.duration_since(lp).as_millis(), count(p))));
+                        }
+                    }
+                }
+            }
+        }
+    }
     let h = *hits.lock().unwrap();
     Ok((shape, h))
 }
@@ -286,7 +305,7 @@ impl Check for C19 {
         CheckMeta {
             property: "C19",
             level: "exploration",
-            rule: "every operation sequence over {req(P), req(Q), flood = burst+2 concurrent req(P), sleep(T/2), sleep(2T), sleep(T-3ms)} up to length 4 (quick) / 5 (thorough) x quota (burst 1 or 3, period 40 ms) x {Block, ReturnError}, plus every arrival order of 2-5 requests of each of 2-3 peers all in flight at once on a fresh limiter (simultaneous arrivals; ReturnError orders also with a stall at each refusal), through two service instances of one layer, executed in REAL time (timing sampled once per sequence), plus one deviation for ReturnError sequences up to length depth-1 / depth-2: the handler is stalled for more than a period at each arrival in turn at the hooked points after / before the limiter check (H8); oracle: for every pair of one peer's admissions the count is <= burst + floor(window/period) with the window over-approximated from call/admit brackets; refusals carry wait-nanos > 0 and never reach the service; requests within quota under every timing must be admitted; Block never refuses; distinct = distinct admit/refuse shapes".into(),
+            rule: "every operation sequence over {req(P), req(Q), flood = burst+2 concurrent req(P), sleep(T/2), sleep(2T), sleep(T-3ms)} up to length 4 (quick) / 5 (thorough) x quota (burst 1 or 3, period 40 ms) x {Block, ReturnError}, plus every arrival order of 2-5 requests of each of 2-3 peers all in flight at once on a fresh limiter (simultaneous arrivals; ReturnError orders also with a stall at each refusal), through two service instances of one layer, executed in REAL time (timing sampled once per sequence), plus one deviation for ReturnError sequences up to length depth-1 / depth-2: the handler is stalled for more than a period at each arrival in turn at the hooked points after / before the limiter check (H8); oracle: for every pair of one peer's admissions the count is <= burst + floor(window/period) with the window over-approximated from call/admit brackets; refusals carry wait-nanos > 0 and never reach the service; requests within quota under every timing must be admitted; Block never refuses; in Block mode a peer with a queue shorter by three or more finishes before the other peer (order only); distinct = distinct admit/refuse shapes".into(),
             assumptions: vec![
                 "real time: governor's quanta clock and futures-timer are not interceptable; the oracle uses only inequalities that hold under arbitrary scheduling delay".into(),
                 "each sequence is executed once: interleavings of the concurrent flood are sampled, not enumerated".into(),
@@ -316,6 +335,10 @@ impl Check for C19 {
         if tier == Tier::Thorough {
             arr.extend([(1, 2, 4), (2, 3, 3), (3, 2, 5), (1, 3, 3)]);
         }
+        // asymmetric backlogs (Block): peer P queues burst + 5 requests, then peer Q burst + 1
+        for burst in [1u32, 3] {
+            u.push(json!({"kind":"asymmetric","burst":burst,"period":PERIOD_MS,"block":true}));
+        }
         for (burst, peers, per_peer) in arr {
             for block in [false, true] {
                 for first in 0..peers {
@@ -330,6 +353,22 @@ impl Check for C19 {
         let burst = unit["burst"].as_u64().unwrap() as u32;
         let block = unit["block"].as_bool().unwrap();
         let period = unit["period"].as_u64().unwrap();
+        if unit["kind"] == "asymmetric" {
+            for (first, second) in [(0u8, 1u8), (1, 0)] {
+                for extra in [1usize, 2] {
+                    let mut seq: Vec<Op> = vec![Op::Spawn(first); burst as usize + 5];
+                    seq.extend(vec![Op::Spawn(second); burst as usize + extra]);
+                    let seq_idx = seq.iter().map(|o| OPS.iter().position(|x| x == o).unwrap()).collect::<Vec<_>>();
+                    crate::pool::crumb(|| "rate limiter asymmetric backlogs".to_string());
+                    out.evaluations += 1;
+                    match run_sequence(burst, period, true, &seq, None) {
+                        Ok(_) => out.class("asymmetric block"),
+                        Err((k, m)) => out.violation(k, m, json!({"unit": {"burst":burst,"period":period,"block":true}, "sequence": seq_idx})),
+                    }
+                }
+            }
+            return;
+        }
         if unit["kind"] == "arrivals" {
             let peers = unit["peers"].as_u64().unwrap() as usize;
             let per_peer = unit["per_peer"].as_u64().unwrap() as usize;
